@@ -258,6 +258,22 @@ def rules(P, R, prefix="C11"):
         in_timer = [n for n in resets if any(x is n for x in ir.walk(tbody))]
         unc = [n for n in sure_subnodes(tbody) if any(n is r for r in resets)]
         R.judge(bool(unc), prefix + ".B5", key(run, "timer re-armed on every path of the timer arm" + tag), tbody["sp"], "", "the timer arm does not unconditionally re-arm the seal timer")
+        # "sealed as soon as ... the maximum delay elapses": every re-arm sets the deadline to now + max_batch_delay (a deadline
+        # computed from the previous deadline drifts into the future after size-triggered seals)
+        for r, i in ordinal_keys(resets, lambda x: 0):
+            dt = ctx.term(r["args"][0]) if r.get("args") else ""
+            a0 = ctx.origin_node(r["args"][0]) if r.get("args") else None
+            if a0 is not None and a0["k"] == "mcall" and not a0["args"] and ctx.term(a0["recv"]) == "self":
+                # a parameterless helper method computing the deadline: judge its body
+                for p_ in callee_paths(a0):
+                    g = prog.fns.get(p_)
+                    if g is not None and g.body["k"] == "block" and not g.body.get("stmts") and "expr" in g.body:
+                        dt = env.ctx(g).term(g.body["expr"])
+            okd = "Instant::now()" in dt and "self.max_batch_delay" in dt and "deadline()" not in dt and dt.count("Duration::from_millis(") == 1 \
+                and re.sub(r"\s", "", dt) in ("(tokio::time::instant::Instant::now()+core::time::Duration::from_millis(self.max_batch_delay))",
+                                               "(core::time::Duration::from_millis(self.max_batch_delay)+tokio::time::instant::Instant::now())")
+            R.judge(okd, prefix + ".B5", key(run, "re-armed to now + max_batch_delay" + tag, i), r["sp"], dt[:160],
+                    "the seal timer is re-armed to `%s`, not to Instant::now() + max_batch_delay: a batch can stay open longer than the maximum delay" % dt[:200])
         for r, i in ordinal_keys(resets, lambda x: 0):
             if any(r is x for x in in_timer):
                 R.ok(prefix + ".B5", key(run, "reset site: timer arm" + tag, i), r["sp"], "")
@@ -269,6 +285,13 @@ def rules(P, R, prefix="C11"):
                     "the seal timer is re-armed on a path where neither the timer fired nor a batch was just sealed: a trickle of transactions "
                     "faster than max_batch_delay postpones the seal indefinitely")
 
+        from ..common import fresh_timer_arms
+        fta = fresh_timer_arms(bfns)
+        for (f_, n_, b_), i in ordinal_keys(fta, lambda x: x[0].path):
+            R.fail(prefix + ".B5", key(f_, "seal timer is created outside the loop" + tag, i), n_["sp"],
+                   "the seal timer is created in the select! arm itself (`%s`): every transaction restarts it, so a trickle of transactions faster "
+                   "than max_batch_delay is never sealed" % ir.pp(b_["fut"], maxlen=80))
+        R.ok(prefix + ".B5", "no per-iteration seal timer" + tag + " (%d found)" % len(fta), "", "")
         # ---------------- B6 panic freedom of the batching path (both configs)
         roots = ["node::node::Node::new"]
         PA = PanicAnalysis(prog, cfg, roots, env, W)
